@@ -120,6 +120,11 @@ type env struct {
 	hdone atomic.Int32 // handler runs that logged their return
 }
 
+// standard codes a handler may return; the caller must get the same one (rpc/status.go maps them back to constants)
+var stdCodes = []status.Code{status.CodeTest, status.CodeError, status.CodeExternalError, status.CodeNotFound, status.CodeForbidden,
+	status.CodeUnauthorized, status.CodeRollback, status.CodeRedirect, status.CodeUnavailable, status.CodeUnsupported,
+	status.CodeParseError, status.CodeChecksumError, status.CodeConcurrencyError, status.CodeWait}
+
 func (e *env) handle(ctx rpc.Context, ch rpc.ServerChannel) (ref.R[[]byte], status.Status) {
 	req, st := ch.Request(ctx)
 	if !st.OK() {
@@ -150,7 +155,7 @@ func (e *env) handle(ctx rpc.Context, ch rpc.ServerChannel) (ref.R[[]byte], stat
 	case sAppCode:
 		return ret(status.New(status.Code(fmt.Sprintf("app_code_%d", id%3)), fmt.Sprintf("message of call %d", id)), 0, false)
 	case sStdErr:
-		return ret(status.NotFoundf("call %d not found", id), 0, false)
+		return ret(status.New(stdCodes[(run+id)%len(stdCodes)], fmt.Sprintf("call %d failed", id)), 0, false)
 	case sPanic:
 		e.rec.log(Event{E: "hr", I: id, Panic: true})
 		e.hdone.Add(1)
